@@ -138,6 +138,8 @@ CASES = {
     "argmax_all_zero": (lambda n, a: n.zeros(1) + n.argmax(a != 0.0), [np.zeros(3)], False),
     "isclose": (lambda n, a, b: n.isclose(a, b).astype(float), [np.array([[1.0, 1000003.0, 0.0], [NAN, 2.0, 5e-9]]), np.array([[1.0, 1000000.0, 1e-9], [NAN, 2.1, 0.0]])], False),
     "errstate_guarded_quotient": (lambda n, a, b: _guarded(n, a, b), [np.array([[1.5, 0.0, -2.0], [4.0, NAN, 0.0]]), np.array([[0.5, 0.0, 0.0], [-2.0, 1.0, 3.0]])], False),
+    "asarray_float_is_no_copy": (lambda n, a: n.zeros(1) + (1.0 if n.shares_memory(n.asarray(a, dtype=float), a) else 0.0), [A2], False),
+    "array_float_is_a_copy": (lambda n, a: n.zeros(1) + (1.0 if n.shares_memory(n.array(a, dtype=float), a) else 0.0), [A2], False),
     "isclose_where": (lambda n, a, b: n.where(n.isclose(a, b), 0.0, a - b), [np.array([[1.0, 1000003.0], [2.0, 100000.5]]), np.array([[1.0, 1000000.0], [2.1, 100000.0]])], False),
     "bool_arith": (lambda n, a: 1.0 - (a > 0.0), [POS - 1.0], False),
     "bool_mask_times_values": (lambda n, a: (a > 0.0) * a + (a <= 0.0) * 2.5, [POS - 1.0], False),
